@@ -76,9 +76,12 @@ class Recorder:
         self.objs = {}
 
     def construct(self, obj):
-        ev = {'kind': 'construct', 'obj': obj, 'raised': ''}
+        ev = {'kind': 'construct', 'obj': obj, 'raised': '', 'tables_intact': True}
+        tb = tables(self.em, self.code, self.cfg['p'])
         try:
             self.objs[obj] = new_decoder(self.cfg, self.code, self.em)
+            ta = tables(self.em, self.code, self.cfg['p'])
+            ev['tables_intact'] = all(np.array_equal(a, b) for a, b in zip(ta, tb))
         except Exception as ex:
             ev['raised'] = f'{type(ex).__name__}: {ex}'[:150]
         self.events.append(ev)
